@@ -92,7 +92,7 @@ def judge(case):
 
 
 def case_strategy(thorough):
-    ts = gen.type_specs(max_leaves=5 if thorough else 3, lax_ok=False)
+    ts = gen.type_specs(max_leaves=5 if thorough else 3, lax_ok=False, with_args=True)
     nums = gen.constrained(origins=["int", "float", "decimal", "decimal"])
     ts = st.one_of(gen.leaf, gen.constrained(), gen.constrained(), nums, nums, gen.enum_t, gen.literal_t, ts, ts, ts)
 
